@@ -21,11 +21,11 @@ ENGINES = [
 
 META = {
     'C20': dict(
-        text="Kernel-checked theorems (lean/XV/Props/C20.lean). CRC-32/IEEE as a bit-serial register machine: the update is GF(2)-linear (crc_linear), the zero-bit step has an explicit inverse (zero_step_inverse, zero_step_injective), a non-zero burst of at most 32 bits leaves a non-zero register (burst_state_nonzero), hence for every payload of every length and every error pattern confined to at most 32 consecutive bits at any position the checksum changes (crc_detects_bursts, byte-level crc32_detects_bursts, single-bit case crc_detects_single_bit_flip). Messages: unmarshal (wire (newMessage ...)) returns the payload for every type, option list and payload including the empty one (roundtrip, roundtrip_inproc), a failed checksum is reported before anything is decompressed or decoded (corruption_detected) and every burst-corrupted message fails it (burst_corruption_rejected); GetRespMessageType maps every request to its _RES type (resp_type_map) on the table regenerated from message.go and network.pb.go. Dispatcher: over all histories of Register/UnRegister/Dispatch/tick the delivered list is duplicate-free and is exactly the registered subscribers of the type whose filters match (dispatch_exact), repeats inside the window are dropped and repeats after it delivered again (repeat_dropped, repeat_redelivered), the de-duplication key regenerated from MessageKey is injective so only repeats of the very same message are ever dropped (msgKey_injective, dedup_only_repeats), every access to the subscriber table happens under the mutex (mc_accesses_locked, regenerated from dispatcher.go). Tie: tables and lock facts are regenerated from source on every run; every op line is executed on the real p2p package and on the Lean model and the answers diffed.",
+        text="Kernel-checked theorems (lean/XV/Props/C20.lean). CRC-32/IEEE as a bit-serial register machine: the update is GF(2)-linear (crc_linear), the zero-bit step has an explicit inverse (zero_step_inverse, zero_step_injective), a non-zero burst of at most 32 bits leaves a non-zero register (burst_state_nonzero), hence for every payload of every length and every error pattern confined to at most 32 consecutive bits at any position the checksum changes (crc_detects_bursts, byte-level crc32_detects_bursts, single-bit case crc_detects_single_bit_flip). Messages: unmarshal (wire (newMessage ...)) returns the payload for every type, option list and payload including the empty one (roundtrip, roundtrip_inproc), a failed checksum is reported before anything is decompressed or decoded (corruption_detected) and every burst-corrupted message fails it (burst_corruption_rejected); GetRespMessageType maps every request to its _RES type (resp_type_map) on the table regenerated from message.go and network.pb.go. Dispatcher: over all histories of Register/UnRegister/Dispatch/tick the delivered list is duplicate-free and is exactly the registered subscribers of the type whose filters match (table_exact, types_exact, dispatch_exact, dispatch_rejects), repeats inside the window are dropped and repeats after it delivered again (repeat_dropped, repeat_redelivered), the de-duplication key regenerated from MessageKey is injective so only repeats of the very same message are ever dropped (msgKey_injective, dedup_only_repeats), every access to the subscriber table happens under the mutex (mc_accesses_locked, regenerated from dispatcher.go). Tie: tables and lock facts are regenerated from source on every run; every op line is executed on the real p2p package and on the Lean model and the answers diffed.",
         design_ref='DESIGN.md §6 C20',
         note="Trusted: Lean kernel, the extractor, the harness. protobuf, snappy, hash/crc32, SHA-256, go-cache and Go's sync/memory model are not verified (protobuf/snappy enter as hypotheses; hash/crc32 and go-cache are compared with the model on every run). Partial by nature: the runtime crash of an unsynchronised map access and the wall-clock window are outside the model (logical clock; lexical lock-discipline fact + stress run instead).",
         technique='Lean 4 proofs (CRC-32 burst detection by linear algebra over GF(2) on BitVec 32; message codec; dispatcher state machine) + tables/lock facts extracted by go/ast + differential correspondence and impl-side oracle on the real p2p package',
     ),
 }
 
-HOOK_COMMITS = []
+HOOK_COMMITS = []  # no hooks needed: the p2p package is driven through its exported API
